@@ -1,4 +1,4 @@
-// @file host=src/lib.rs mod=verif_arr
+// @file host=src/lib.rs mod=verif_arr compileverdict=C20
 //! Engine-K obligations for the arr! / box_arr! macros (C20).  What is PROVED is the functions the expansions call
 //! (from_array, const_transmute: views_h.rs / layout_h.rs; try_from_vec, __from_vec_helper: alloc_h.rs and below);
 //! macro expansion itself is outside any contract language, so the expansions are ENUMERATED: one generated
@@ -66,6 +66,19 @@ fn c20_arr_forms() {
     if i < 4 {
         kani::assert(CN[i] == 9, "C20.arr![x; n](const): n copies");
     }
+    // type-level lengths typenum does not name (operator-built) and every form inside a const fn
+    type L1027 = typenum::Sum<U1024, U3>;
+    type L1600 = typenum::Prod<U40, U40>;
+    let big = arr![v; L1027];
+    let big2 = arr![1u8; L1600];
+    kani::assert(type_len(&big) == 1027 && type_len(&big2) == 1600 && big[1026] == v && big2[1599] == 1, "C20.arr![x; N]: any type-level length, not only those typenum names");
+    const fn in_const_fn() -> (GenericArray<u8, U3>, GenericArray<u8, U2>, GenericArray<u8, U4>) {
+        (arr![1, 2, 3], arr![5; U2], arr![6; 4])
+    }
+    const K: (GenericArray<u8, U3>, GenericArray<u8, U2>, GenericArray<u8, U4>) = in_const_fn();
+    kani::assert(K.0[2] == 3 && K.1[1] == 5 && K.2[3] == 6, "C20.arr!(const fn): all three forms work in a const fn");
+    static S: GenericArray<u16, U3> = arr![7; 3];
+    kani::assert(S[2] == 7, "C20.arr!(static): the repeat form works in a static");
     kani::cover!(true, "end reachable");
 }
 
